@@ -266,7 +266,7 @@ Qed.
 Lemma sections_ok K m : consts_ok K -> imports_complete m -> Forall sec_ok (sections K m).
 Proof.
   intros (_ & _ & Ef & Ed & Ei & _) Him. unfold sections.
-  repeat apply Forall_app; split.
+  apply Forall_app; split.
   - destruct (nonempty (m_strings m)); constructor; [|constructor]. exact (strings_ok _).
   - apply Forall_app; split.
     + destruct (nonempty (m_code m)); constructor; [|constructor]. split; [symmetry; apply full_len|apply full_complete].
@@ -348,7 +348,7 @@ Proof.
   assert (HT : total_size K m = (32 + 12 * length secs + sum_sz secs)%nat).
   { unfold total_size. fold secs. rewrite Eh, Es. unfold sum_sz. lia. }
   assert (Hd0 : data0 = (32 + 12 * length secs)%nat) by (unfold data0; rewrite Eh, Es; lia).
-  assert (Hb : forall b, length b = total_size K m -> forall pos pl, In (pos, pl) plan -> (pos + length pl <= length b)%nat).
+  assert (Hb : forall b : list byte, length b = total_size K m -> forall pos pl, In (pos, pl) plan -> (pos + length pl <= length b)%nat).
   { intros b Lb pos pl Hin. unfold plan in Hin. apply in_app_or in Hin. rewrite Lb, HT. destruct Hin as [Hin|Hin].
     - eapply (bounds_secs secs (c_header K) data0); eauto; rewrite ?Eh, ?Hd0; lia.
     - eapply bounds_header; eauto. lia. }
@@ -433,7 +433,7 @@ Proof.
       simpl. rewrite Hex. split; [exact A|]. split; [simpl; f_equal; exact B|].
       intros [|j] s0 Hs; simpl in Hs.
       * inversion Hs; subst. exists k. split; [reflexivity|].
-        rewrite A. clear - F. revert F. generalize 0%nat. induction pool as [|x q IHq]; intros n F; simpl in *; [discriminate|].
+        try rewrite A. clear - F. revert F. generalize 0%nat. induction pool as [|x q IHq]; intros n F; simpl in *; [discriminate|].
         destruct (bytes_eqb x s0); auto.
       * apply C; exact Hs.
     + destruct (add_all (pool ++ [s]) r) as [p2 is2] eqn:R. inversion H; subst.
@@ -441,7 +441,7 @@ Proof.
       simpl. rewrite F. split; [rewrite A, <- app_assoc; reflexivity|]. split; [simpl; f_equal; exact B|].
       intros [|j] s0 Hs; simpl in Hs.
       * inversion Hs; subst. exists (length pool). split; [reflexivity|].
-        rewrite A. clear - F.
+        try rewrite A. clear - F.
         assert (G : forall n, find_str ((pool ++ [s0]) ++ first_uses (pool ++ [s0]) r) s0 n = Some (n + length pool)%nat).
         { induction pool as [|x q IHq]; intros n; simpl in *.
           - rewrite (proj2 (bytes_eqb_eq s0 s0) eq_refl). f_equal. lia.
